@@ -48,7 +48,7 @@ CHECKS = {
                 text="TLC validates recorded runs against InkHostAbs rule EvalA: a host evaluation of a pure function does "
                      "not move the abstract position; the observation (function's own visit/turn entries masked) is "
                      "unchanged, a repeated call returns the same value and text, later operations equal the base run. Additionally evaluate_function is checked against the executable model spec/InkHost.tla (a frame of its own kind on the current thread, output set aside and put back, text and value as results): random histories with evaluations between lines, at choices and at the end.",
-                note="purity is a generator fact; the thread's previous-content pointer in the save document is masked",
+                note="purity is a generator fact; the thread's previous-content pointer in the save document is masked; the host hands over integer and truth-value arguments (value and text compared type first against the model; float, string and list arguments are not handed over yet); design level: invariant EvalLeavesTheStoryAlone of InkHostMC (run by C01)",
                 technique="TLA+ trace validation (InkHostTrace/InkHostAbs) of injected evaluate_function calls + TLA+ executable host model (InkHost/InkHostOps) as absolute oracle"),
     "C17": dict(level=MC, ref="5/C17",
                 text="TLC validates recorded runs against InkHostAbs rule ResetA: after any explored history (cut mid-line, "
